@@ -18,9 +18,11 @@ RULE = (
     "0.05), a complex tower gamma_0..gamma_{n-1} with |entries of gamma_k| in [0.02, 1] x 10^k and one of: "
     "non-singlet scalar x {expanded, truncated, ordered-truncated}; generic (non-commuting) singlet 2x2 x {truncated, "
     "ordered-truncated, perturbative-exact, perturbative-expanded (ev_op_iterations 1..20, ev_op_max_order n..n+8 "
-    "<= 12)}; commuting singlet tower V diag(x_k, y_k) V^-1 (|y_k - x_k| >= 0.15 x 10^k, cond V bounded by construction) x {decompose-exact, decompose-expanded}. Every kernel is called "
-    "through the public dispatcher. The measured scaling exponent (two smallest lambdas of {1,1/2,1/4,1/8} whose "
-    "difference is >= 100 x the reference noise, followed further towards 0 when in doubt) must be >= n - 0.25; "
+    "<= 12)}; commuting singlet tower V diag(x_k, y_k) V^-1 (|y_k - x_k| >= 0.15 x 10^k, cond V bounded by "
+    "construction) x {decompose-exact, decompose-expanded}. Every kernel is called through the public dispatcher. "
+    "The measured scaling exponent (two smallest lambdas of {1,1/2,1/4,1/8} whose difference is >= 100 x the "
+    "reference noise; when below n - 0.25 the scaling is followed to lambda = 1/16 ... 1/1024 and the verdict needs "
+    "two consecutive low pairs whose exponents do not extrapolate to >= n - 0.5) must be >= n - 0.25; "
     "decompose-exact on commuting input must equal the reference to 1e-9. Non-trivial = an exponent could be "
     "measured (or the decompose-exact equality was tested), eigenvalue gap of gamma_0 >= 5 %, and for the generic "
     "singlet ||[g0,g1]|| > 0.1 ||g0|| ||g1||; distinct by the full case."
@@ -29,12 +31,16 @@ ASSUMPTIONS = [
     "reference: d/da E = (sum gamma_k a^(k+1)) / (sum beta_k a^(k+2)) E as written in doc/source/theory/DGLAP.rst, beta_k "
     "from the Herzog et al. table typed in c20_coefficients (independent of eko.beta); checked against the LO closed "
     "form to 4e-16",
-    "noise floor of the references: 1e-14 relative (mpmath quadrature, non-singlet), 1e-13 (DOP853 rtol 1e-13 / atol "
+    "noise floor of the references: 1e-15 relative (30-digit mpmath quadrature rounded to double, non-singlet; the "
+    "exact NS kernel reproduces it to 2e-16), 1e-13 (DOP853 rtol 1e-13 / atol "
     "1e-15 in ln a; measured 1e-14 against the closed form on commuting towers); differences below 100 x floor are "
     "not used",
     "slack 0.25 on the exponent (DESIGN section 2); a first verdict 'too small' is only final after following "
-    "lambda down to the noise floor (1/16 ... 1/1024), because at a = 0.05 the sub-leading term can be 20-50 % of the "
-    "leading one at lambda = 1/8 for correct code (calibrated on 6000 corner-biased cases of the unchanged tree)",
+    "lambda down to the noise floor (1/16 ... 1/1024) and if the last two adjacent pairs are both low and do not "
+    "extrapolate (2p - p_prev) to >= n - 0.5: for correct code whose leading coefficient happens to be small the "
+    "sub-leading terms are 20-50 % of the leading one at lambda = 1/8 (local exponents down to n - 0.65, or a sign "
+    "change of the difference) - calibrated on 6000 corner-biased cases of the unchanged tree and 16000-case thorough "
+    "runs; such undecided cases are counted as trivial (class verdict=undecided)",
     "decompose methods are held to the working order only on commuting towers (documented: they neglect the "
     "non-commutativity); on commuting input decompose-exact neglects nothing, hence equality to 1e-9",
     "towers whose gamma_0 (or, for decompose, whose summed exponent) has a relative eigenvalue gap below 1e-2 are "
@@ -58,7 +64,7 @@ COMBOS = (
     + [("commuting", "decompose-expanded")] * 2
 )
 
-FLOOR_NS = 1e-14
+FLOOR_NS = 1e-15
 FLOOR_S = 1e-13
 
 
